@@ -300,21 +300,6 @@ theorem readTypeName_adv {s s' : St} {n : Bytes} (h : readTypeName s = .ok (n, s
       | head => exact notLay_of_upper hc
       | tail _ hx => exact notLay_of_alnum (hall x hx)
 
-theorem advanceOnLine_strip {s s' : St} (h : advanceOnLine s = .ok s') :
-    stripAux false s.rest = stripAux false s'.rest ∧ s.pos ≤ s'.pos := by
-  obtain ⟨w, hw, hall, _⟩ := scan_adv _ _ _ _ h
-  refine ⟨?_, hw.pos_le⟩
-  rw [hw.1]
-  clear hw
-  induction w with
-  | nil => rfl
-  | cons c w ih =>
-    have hc := hall c List.mem_cons_self
-    simp only [isSpTab, Bool.or_eq_true, decide_eq_true_eq] at hc
-    rw [List.cons_append]
-    rcases hc with rfl | rfl <;> simp only [stripAux] <;> simp <;>
-      exact ih (fun x hx => hall x (List.mem_cons_of_mem _ hx))
-
 /-! ### readType, readStructType -/
 
 /-- `t` is a field-list type with the fields `F` -/
@@ -1001,40 +986,35 @@ theorem readError_win {s : St} {r : Member × St} (h : readError s = .ok r) : Me
   simp only at h
   split at h
   · cases h
-  · obtain ⟨s3, h3, h⟩ := Out.bind_eq_ok h
-    have a3 := advanceOnLine_strip h3
-    obtain ⟨⟨t, s4⟩, h4, h⟩ := Out.bind_eq_ok h
-    have w4 := readType_win h4
-    have hp : s.pos ≤ s4.pos := by
-      have := a1.2; have := ha2.pos_le; have := a3.2; have := w4.1
-      simp only at *; omega
-    cases t with
-    | none =>
-      simp only at h
-      split at h
-      · cases h
-      · rename_i hpos
-        simp only [ne_eq, Decidable.not_not] at hpos
-        cases h
-        have hr : s4.rest = s3.rest := by
-          rcases w4.2.1 rfl with hlt | hr
-          · simp only at hlt; omega
-          · exact hr
-        refine ⟨?_, ⟨htok, ?_⟩, hp⟩
-        · rw [a1.1, ha2.1, stripAux_tok htok, a3.1]
-          simp [printMember, sep, hr]
-        · intro t' ht'; simp [Member.types] at ht'
-    | some t =>
-      simp only at h
+  · split at h
+    · -- no parameter list: the cursor stays right behind the name
       cases h
-      obtain ⟨hw, hcl⟩ := w4.2.2 t rfl
-      refine ⟨?_, ⟨⟨htok, hcl⟩, ?_⟩, hp⟩
-      · rw [a1.1, ha2.1, stripAux_tok htok, a3.1, hw]
+      refine ⟨?_, ⟨htok, ?_⟩, ?_⟩
+      · rw [a1.1, ha2.1, stripAux_tok htok]
         simp [printMember, sep]
-      · intro t' ht'
-        simp only [Member.types, List.mem_singleton] at ht'
-        subst ht'
-        exact readType_good h4
+      · intro t' ht'; simp [Member.types] at ht'
+      · have := a1.2; have := ha2.pos_le
+        simp only at *; omega
+    · obtain ⟨s3, h3, h⟩ := Out.bind_eq_ok h
+      have a3 := advance_strip h3
+      obtain ⟨⟨t, s4⟩, h4, h⟩ := Out.bind_eq_ok h
+      have w4 := readType_win h4
+      have hp : s.pos ≤ s4.pos := by
+        have := a1.2; have := ha2.pos_le; have := a3.2; have := w4.1
+        simp only at *; omega
+      cases t with
+      | none => simp only at h; cases h
+      | some t =>
+        simp only at h
+        cases h
+        obtain ⟨hw, hcl⟩ := w4.2.2 t rfl
+        refine ⟨?_, ⟨⟨htok, hcl⟩, ?_⟩, hp⟩
+        · rw [a1.1, ha2.1, stripAux_tok htok, a3.1, hw]
+          simp [printMember, sep]
+        · intro t' ht'
+          simp only [Member.types, List.mem_singleton] at ht'
+          subst ht'
+          exact readType_good h4
 
 /-! ### the member loop, readIDL, New -/
 
